@@ -197,6 +197,32 @@ def sharing(ctx, d1):
         else:
             d1.ok('Stream.link_with', '%s shared exactly when selected (%d paths)' % (k, n), f)
     unlink_rule(ctx, d1, expect)
+    copy_like_contract(ctx, d1)
+
+
+def copy_like_contract(ctx, d1):
+    """copy_like: "copying the conditions of any stream onto any other makes all of those quantities equal" -- every normal exit
+    must have copied the thermal condition (the flows are covered by the indexer rules).  Also used by C02: mix_from with a single
+    inlet and the energy balance on IS copy_like."""
+    prog = ctx.prog
+    from ..cfg import CFG
+    for cname, rel in (('Stream', ST), ('MultiStream', MS)):
+        f = prog.method(cname, 'copy_like', rel=rel)
+        cfg = CFG(f.node)
+        o_ = f.params[1]
+
+        def copies_tc(nd):
+            return nd.kind == 'stmt' and any(isinstance(x, ast.Call) and isinstance(x.func, ast.Attribute) and x.func.attr in ('copy_like',)
+                                            and 'thermal_condition' in src(x.func.value) and src(x.func.value).startswith('self')
+                                            and x.args and 'thermal_condition' in src(x.args[0]) and src(x.args[0]).startswith(o_)
+                                            for x in ast.walk(nd.ast))
+        okk, wit = cfg.must_pass(cfg.entry, copies_tc)
+        if okk:
+            d1.ok('%s.copy_like' % cname, 'the thermal condition is copied on every normal path', f)
+        else:
+            last = [x for x in (wit or []) if x.lineno]
+            d1.fail('%s.copy_like' % cname, 'contract-thermal-condition', 'some normal path returns without copying T and P from the other stream '
+                    '(it leaves through line %s)' % (last[-1].lineno if last else '?'), f, last[-1].ast if last else f.node)
 
 
 def unlink_rule(ctx, d1, expect=None):
